@@ -87,15 +87,16 @@ CLAIMED = {
         technique="Coq proof (table invariant; per-type layout table) + model/implementation correspondence with an independent pointer walker",
         ref="DESIGN.md section 6, C07"),
     "C11": dict(
-        text="PARTIAL. Kernel-checked theorems: the image of Packet::parse - for EVERY accepted byte string the parsed packet meets "
-             "the well-formedness predicate of C02 (names 1..63-byte labels within 255 bytes, every typed RDATA well-formed for "
-             "its layout including TXT with >= 1 string and the IPSECKEY gateway shape, unknown-type data 1..65535 bytes, EDNS "
-             "data in range, counts < 65536) - hence both serialisations succeed and parse back to the same packet, under "
-             "explicit side conditions: opcode and response code have a named variant (otherwise known finding F21, witnessed "
-             "by a theorem), no OPT-typed record remains in a section after the first was lifted, every RDATA re-encodes within "
-             "65535 bytes. The side conditions hold for the serialisation of every well-formed packet. Stray OPT records and the "
-             "whole quantifier (foreign compression layouts, unknown types, empty RDATA, OPT anywhere, every header word, accepted "
-             "malformed inputs, messages up to 64 KiB) are covered by the REPARSE slice on model and implementation.",
+        text="Kernel-checked theorems: the image of Packet::parse - for EVERY accepted byte string the parsed packet lies in a class "
+             "of well-formed packets (names 1..63-byte labels within 255 bytes, every typed RDATA well-formed for its layout "
+             "including TXT with >= 1 string and the IPSECKEY gateway shape, unknown-type data 1..65535 bytes, EDNS data in "
+             "range, OPT-typed records left in any section, counts < 65536) for which both serialisations succeed and parse back "
+             "to the same packet, the compressed one being no longer. Two explicit side conditions remain: opcode and response "
+             "code have a named variant (otherwise known finding F21, witnessed by a theorem; a reserved OPCODE is shown "
+             "harmless), and every RDATA re-encodes within 65535 bytes (compressed names are written in full). A message with "
+             "two OPT records is shown to survive. The whole quantifier (foreign compression layouts, unknown types, empty "
+             "RDATA, OPT anywhere, every header word, accepted malformed inputs, messages up to 64 KiB) is also run by the REPARSE "
+             "slice on model and implementation.",
         technique="Coq proof (image of the parser by induction over layouts / sections, composed with the C02 and C03 round trips) + model/implementation correspondence",
         ref="DESIGN.md section 6, C11"),
     "C05": dict(
@@ -154,15 +155,15 @@ CLAIMED = {
         technique="Coq proof (composition of parser totality, store totality and the compressed round trip) + model/implementation correspondence on datagram pipelines",
         ref="DESIGN.md section 6, C14"),
     "C15": dict(
-        text="PARTIAL. Kernel-checked theorems: for ANY instance description within DNS limits (instance_ok: addresses and ports in "
-             "range, distinct '='-free non-empty UTF-8 keys, entries <= 255 bytes, name fitting 255 bytes) and any header, the "
+        text="Kernel-checked theorems: for ANY instance description within DNS limits (instance_ok: addresses and ports in range and "
+             "distinct, distinct '='-free non-empty UTF-8 keys, entries <= 255 bytes, name fitting 255 bytes) and any header, the "
              "records into_records produces, sent in a compressed packet, are parsed by the discoverer to records all of which "
-             "pass the ingest filter, and from_records on them returns the advertised instance (same name, addresses, ports and "
-             "attribute map with absent / empty / non-empty values distinguished; a TXT without strings crossing the wire as one "
-             "empty string is handled); the ingest filter keeps exactly the records that are not the discoverer's own and are "
-             "strictly below the watched service; unescape (escape s) = s for all byte strings. Sequences of announcements from "
-             "several peers, re-announcements and the store's grouping by owner are covered by the DISC slice (model vs "
-             "implementation with an independent python oracle for the reported set).",
+             "pass the ingest filter; a fresh discoverer (its own service PTR registered) that ingests them reports from "
+             "get_known_services exactly the advertised instance (same name, addresses, ports and attribute map with absent / "
+             "empty / non-empty values distinguished) at every instant before the TTL has elapsed and nothing afterwards; the "
+             "ingest filter keeps exactly the records that are not the discoverer's own and are strictly below the watched "
+             "service; unescape (escape s) = s for all byte strings. PARTIAL: sequences of announcements from several peers and "
+             "re-announcements are covered by the DISC slice (model vs implementation, independent python oracle).",
         technique="Coq proof (composition of the attribute / TXT round trip, the compressed packet round trip and the filter characterisation) + model/implementation correspondence on announcement sequences",
         ref="DESIGN.md section 6, C15"),
     "C16": dict(
@@ -184,23 +185,27 @@ CLAIMED = {
         technique="Coq proof (prefix-code lemma, store invariant by induction over operations, reply soundness/completeness) + model/implementation correspondence",
         ref="DESIGN.md section 6, C13"),
     "C20": dict(
-        text="PARTIAL. Kernel-checked theorems over the store model on an abstract clock: the effect of each operation on a record's "
-             "state (reception sets expiry to now + TTL, 1 s with cache-flush, and restarts it; a locally registered record stays "
-             "authoritative; remove / clear forget it), the semantics of the three filters (authoritative never expires and is "
-             "invisible to the cache-only filter; cached visible strictly before expiry; TTL 0 never), and query soundness / "
-             "completeness. The statement over whole histories is NOT proved; it is checked by the slice: hundreds of seeded "
-             "histories executed with real sleeps on a half-second grid against the model and an independent python history spec.",
-        technique="Coq proof of per-operation state transitions and filter semantics + timed model/implementation correspondence",
+        text="Kernel-checked theorems over the store model on an abstract clock: after ANY sequence of register / receive / remove / "
+             "clear operations from any starting store, the state of every record equals a small per-record specification that "
+             "looks only at the operations touching an equal record (equality = name, class, data, proved to be what rr_eqb "
+             "decides): reception sets expiry to now + TTL (1 s with cache-flush) and restarts it, a locally registered record "
+             "stays authoritative, remove / clear forget it; and an exact-name query under any filter shows the record exactly "
+             "when that state passes the filter at that instant (authoritative never expires and is invisible to the cache-only "
+             "filter; cached visible strictly before expiry; TTL 0 never). PARTIAL: the real clock (Instant, sleeps, scheduling) "
+             "is outside the model and is exercised by the HISTB slice: hundreds of seeded histories executed with real sleeps "
+             "on a half-second grid against the model and an independent python history spec.",
+        technique="Coq proof (refinement of a per-record history specification by induction over operation sequences; filter semantics) + timed model/implementation correspondence",
         ref="DESIGN.md section 6, C20"),
     "C04": dict(
-        text="PARTIAL. Kernel-checked theorems: for every well-formed packet the plain serialisation is accepted by an independent "
-             "envelope reader which finds exactly the counted questions and records in order (the OPT pseudo-record once), each "
-             "RDLENGTH delimiting its RDATA, ending at the last byte; len() equals the bytes written for every RDATA (separate "
-             "code, proved equal); the imperative compressed record writer (placeholder / seek back / patch / seek forward) refines "
-             "the functional writer on a growable seekable writer at any position over any pre-existing content (the pinned "
-             "seek(End(0)) is refuted by a witness). Not proved: framing of the compressed output (rests on C03), fixed-capacity "
-             "writers. Those, and every writer kind / capacity / offset / pre-filled content, are covered by the BUILDW slice with "
-             "a python envelope walker and byte equality with the vector-returning entry points.",
+        text="Kernel-checked theorems: for every well-formed packet both the plain and the COMPRESSED serialisation are accepted by an "
+             "independent envelope reader which finds exactly the counted questions and records in order (the OPT pseudo-record "
+             "once), each RDLENGTH delimiting its RDATA (for the plain form ending at the last byte); len() equals the bytes "
+             "written for every RDATA (separate code, proved equal); the imperative compressed record writer (placeholder / seek "
+             "back / patch / seek forward) refines the functional writer on a growable seekable writer at any position over any "
+             "pre-existing content (the pinned seek(End(0)) is refuted by a witness), and over a fixed-capacity writer it either "
+             "does the same or fails with FailedToWrite, never a truncated record. PARTIAL: third-party Write / Seek "
+             "implementations and the std writer plumbing are covered by the BUILDW slice (every writer kind / capacity / offset "
+             "/ pre-filled content, python envelope walker, byte equality with the vector-returning entry points).",
         technique="Coq proof (walker over written output; list-level refinement of the seek/patch writer) + model/implementation correspondence over writer configurations",
         ref="DESIGN.md section 6, C04"),
 }
